@@ -1417,6 +1417,16 @@ def run_robust(exe, lines, env=None, timeout=None, max_restarts=5):
             break
         # line start+n did not get a complete answer
         out += complete[:n]
+        if rc == 124:
+            # the whole batch ran out of time: on a loaded machine (sanitizer build, many checks at once) that says nothing about
+            # this line.  Every line is a self-contained query: ask it again alone with a generous limit before calling it a hang.
+            rc1, o1, err1 = vlib.run_lines(exe, lines[start + n] + "\n", timeout=max(120, timeout), env=env)
+            if rc1 != 124 and len(o1) >= 2:
+                out.append(o1[0])
+                start += n + 1
+                continue
+            if rc1 != 124:
+                rc, err, partial = rc1, err1, (o1[-1] if o1 else "")
         why = "timeout" if rc == 124 else "exit %d" % rc
         m = [l for l in err.split("\n") if "ERROR: AddressSanitizer" in l or "SUMMARY" in l or "runtime error" in l or "Assertion" in l]
         msg = re.sub(r"0x[0-9a-f]+", "ADDR", re.sub(r"==\d+==", "", m[0].strip()))[:160] if m else ""
